@@ -297,23 +297,29 @@ theorem visitSelsT (h : TCF c F G) : ∀ (xs : List Sel) (st : St), st.ti.direct
 end
 
 
-theorem visitVarDefT (h : TCF c F G) (v : VarDef) (st : St) :
-    TW F G (withView st.ti.view (varDefNodes v)) st (visitVarDef c v st) := by
-  rw [visitVarDef, varDefNodes, withView_cons]
+theorem visitVarDefT (h : TCF c F G) (v : VarDef) (st : St) (hd : st.ti.directive = none) :
+    TW F G (tnVarDef c.schema st.ti.view v) st (visitVarDef c v st) := by
+  rw [visitVarDef, tnVarDef, withView_cons, List.cons_append]
   refine visitNodeT h (.varDef v) _ _ st rfl (fun _ e => by cases e) (fun st1 e => ?_)
   have hv1 : st1.ti.view = st.ti.view := by rw [e, view_enter]; rfl
-  have key : ∀ st', st'.ti.view = st.ti.view →
-      TW F G (withView st.ti.view [.typeNode v.type]) st' (visitNode c (.typeNode v.type) id st') := by
-    intro st' hv'
-    have := leafT h (.typeNode v.type) st' rfl (fun _ e => by cases e) rfl
-    rwa [hv'] at this
-  rw [withView_append]
-  cases hd : v.default with
-  | none => simpa [withView] using key st1 hv1
+  have hd1 : st1.ti.directive = none := by rw [e, directive_tiEnter _ _ _ (fun _ => by simp)]; exact hd
+  have key : ∀ st', st'.ti = st1.ti →
+      TW F G (withView st.ti.view [.typeNode v.type] ++ tnDirs c.schema st.ti.view v.dirs) st'
+        (visitDirectives c v.dirs (visitNode c (.typeNode v.type) id st')) := by
+    intro st' ht
+    have hv' : st'.ti.view = st.ti.view := by rw [ht]; exact hv1
+    have a := leafT h (.typeNode v.type) st' rfl (fun _ e => by cases e) rfl
+    have b := visitDirectivesT h v.dirs (visitNode c (.typeNode v.type) id st') (by rw [a.1, ht]; exact hd1)
+    rw [a.1, hv'] at b
+    rw [hv'] at a
+    exact a.append b
+  rw [withView_append, List.append_assoc]
+  cases hd' : v.default with
+  | none => simpa [withView] using key st1 rfl
   | some dv =>
     simp only
     have h1 := visitValueT h dv st1
-    have h2 := key (visitValue c dv st1) (by rw [h1.1]; exact hv1)
+    have h2 := key (visitValue c dv st1) h1.1
     rw [hv1] at h1
     exact h1.append h2
 
@@ -329,7 +335,7 @@ theorem visitDefT (h : TCF c F G) (d : Def) (st : St) (h0 : st.ti = {}) :
     have := visitNodeT h (.operation kind name vars dirs sels) (fun st =>
         visitNode c (.selectionSet ssid sels) (visitSels c sels)
           (visitDirectives c dirs (vars.foldl (fun st v => visitVarDef c v st) st)))
-      (withView (View.enter c.schema (.operation kind name vars dirs sels) {}) (vars.flatMap varDefNodes) ++
+      (vars.flatMap (tnVarDef c.schema (View.enter c.schema (.operation kind name vars dirs sels) {})) ++
         tnDirs c.schema (View.enter c.schema (.operation kind name vars dirs sels) {}) dirs ++
         (.selectionSet ssid sels, View.enter c.schema (.selectionSet ssid sels)
             (View.enter c.schema (.operation kind name vars dirs sels) {})) ::
@@ -339,11 +345,8 @@ theorem visitDefT (h : TCF c F G) (d : Def) (st : St) (h0 : st.ti = {}) :
         have hd1 : st1.ti.directive = none := by rw [e, directive_tiEnter _ _ _ (fun _ => by simp)]; exact hd0
         have hv1 : st1.ti.view = View.enter c.schema (.operation kind name vars dirs sels) {} := by
           rw [e, view_enter, hv0]
-        have h1 := foldlT (F := F) (G := G) (fun _ => True) (visitVarDef c) (fun v x => withView v (varDefNodes x))
-          (fun a st _ => visitVarDefT h a st) vars st1 trivial
-        have h1' : TW F G (withView st1.ti.view (vars.flatMap varDefNodes)) st1
-            (vars.foldl (fun st v => visitVarDef c v st) st1) := by
-          simpa [withView, List.map_flatMap] using h1
+        have h1' := foldlT (F := F) (G := G) (fun t => t.directive = none) (visitVarDef c)
+          (fun v x => tnVarDef c.schema v x) (fun a st hp => visitVarDefT h a st hp) vars st1 hd1
         have h2 := visitDirectivesT h dirs _ (by rw [h1'.1]; exact hd1)
         have h3 := visitNodeT h (.selectionSet ssid sels) (visitSels c sels) _
           (visitDirectives c dirs (vars.foldl (fun st v => visitVarDef c v st) st1))
